@@ -6,6 +6,7 @@
 package pc36
 
 import (
+	"encoding/json"
 	"errors"
 	"fmt"
 	"io"
@@ -42,6 +43,9 @@ const (
 	sigHangEst = "C36-close-hangs-conn-established-during-close"
 	// the same for a connection that was fully established (CONNACK received) before Close() was called
 	sigHangSettled = "C36-close-hangs-established-conn-not-closed"
+	// Close() is deadlocked inside the broker: Clients.GetByListener holds the read lock and calls Clients.Len, which
+	// read-locks again behind a writer (Clients.Add / Delete of a connection handler) that waits for the first read lock
+	sigDeadlock = "C36-close-deadlocks-in-clients-getbylistener-recursive-rlock"
 	// Close() returned although a handler that had certainly registered in ClientsWg before Close() was called (it had
 	// passed a schedule point behind ClientsWg.Add by then) was still alive
 	sigRegisteredHandler = "C36-close-returned-before-registered-handler-finished"
@@ -82,7 +86,7 @@ type c36Client struct {
 }
 
 type c36Case struct {
-	Class        string      `json:"class"` // free | idle-preconnect | park-start | late-establish | dial-in-close
+	Class        string      `json:"class"` // free | idle-preconnect | park-start | late-establish | dial-in-close | lock-pressure
 	Clients      []c36Client `json:"clients"`
 	CloseAfter   int         `json:"close_after"`    // Close() is called once this many clients reached their stage
 	CloseDelayUs int         `json:"close_delay_us"` // ... plus this delay
@@ -91,9 +95,12 @@ type c36Case struct {
 	ImpatientMs int `json:"impatient_ms,omitempty"`
 	// Release of parked handlers: "returned" (after Close() returned), "closing" (once a goroutine dump shows Close() in
 	// ClientsWg.Wait, i.e. past closeListenerClients), "cleanup" (only when the case is torn down).
-	Release     string `json:"release,omitempty"`
-	WindowDials int    `json:"window_dials,omitempty"` // dial-in-close: dials made from inside closeListenerClients
-	HoldUs      int    `json:"hold_us,omitempty"`      // ... and how long Close() is held there afterwards
+	Release string `json:"release,omitempty"`
+	// lock-pressure: this many harness goroutines do what a connecting and disconnecting client's handler does to the
+	// client registry (Server.Clients.Add / Delete, with clients of another listener id) in a loop while Close() runs
+	Pressure    int `json:"pressure,omitempty"`
+	WindowDials int `json:"window_dials,omitempty"` // dial-in-close: dials made from inside closeListenerClients
+	HoldUs      int `json:"hold_us,omitempty"`      // ... and how long Close() is held there afterwards
 }
 
 // ---- handler tracker (verif schedule hook) ----------------------------------------------------------------
@@ -594,6 +601,9 @@ type goroutineInfo struct {
 	id, state, text string
 }
 
+// goroutines of an earlier case whose broker deadlocked: they can never run again and are ignored in later dumps
+var c36Leaked = map[string]bool{}
+
 func dumpGoroutines() []goroutineInfo {
 	buf := make([]byte, 1<<20)
 	for {
@@ -621,6 +631,9 @@ func dumpGoroutines() []goroutineInfo {
 		}
 		if i, j := strings.IndexByte(head, '['), strings.LastIndexByte(head, ']'); i >= 0 && j > i {
 			g.state = head[i+1 : j]
+		}
+		if c36Leaked[g.id] {
+			continue
 		}
 		out = append(out, g)
 	}
@@ -703,6 +716,31 @@ func (run *c36Run) stuckProof() (key string, pre, during, settled []string, ok b
 	}
 	sort.Strings(ids)
 	return strings.Join(ids, ","), pre, during, settled, true
+}
+
+// deadlockProof looks for the lock cycle that nothing outside the broker can break: the goroutine running Close() is
+// inside Clients.GetByListener (read lock held) -> Clients.Len, waiting for a second read lock, and another goroutine
+// waits in Clients.Add / Clients.Delete for the write lock (a waiting writer blocks new readers).
+func deadlockProof() (key, detail string, ok bool) {
+	closer, writer := "", ""
+	for _, g := range dumpGoroutines() {
+		if strings.Contains(g.text, ".(*Server).Close(") && strings.Contains(g.text, ".(*Clients).GetByListener(") &&
+			strings.Contains(g.text, ".(*Clients).Len(") && strings.HasPrefix(g.state, "sync.RWMutex.RLock") {
+			closer = g.id
+		}
+		if (strings.Contains(g.text, ".(*Clients).Add(") || strings.Contains(g.text, ".(*Clients).Delete(")) && strings.HasPrefix(g.state, "sync.RWMutex.Lock") {
+			writer = g.id
+			if strings.Contains(g.text, ".(*Clients).Add(") {
+				detail = "a handler in Clients.Add"
+			} else {
+				detail = "a handler in Clients.Delete"
+			}
+		}
+	}
+	if closer == "" || writer == "" {
+		return "", "", false
+	}
+	return closer + "/" + writer, detail, true
 }
 
 // writeDump saves all goroutine stacks for a later look at an inconclusive run.
@@ -820,6 +858,13 @@ func c36Check(c c36Case, r *evid.Rec) (discs []evid.Disc) {
 		r.NotAsserted()
 		return nil
 	}
+	if p := os.Getenv("VERIF_C36_CASELOG"); p != "" { // debugging aid: every executed case, one JSON document per line
+		if f, err := os.OpenFile(p, os.O_APPEND|os.O_CREATE|os.O_WRONLY, 0o644); err == nil {
+			b, _ := json.Marshal(c)
+			_, _ = f.Write(append(b, '\n'))
+			_ = f.Close()
+		}
+	}
 	// a connection that is closed only by the garbage collector's finalizer was not closed by Close()
 	oldGC := debug.SetGCPercent(-1)
 	defer debug.SetGCPercent(oldGC)
@@ -904,6 +949,25 @@ func c36Check(c c36Case, r *evid.Rec) (discs []evid.Disc) {
 	if c.CloseDelayUs > 0 {
 		time.Sleep(time.Duration(c.CloseDelayUs) * time.Microsecond)
 	}
+	for i := 0; i < c.Pressure; i++ {
+		run.scripts.Add(1)
+		go func(i int) {
+			defer run.scripts.Done()
+			d := run.srv.NewClient(nil, lid+"-other", fmt.Sprintf("%s-pressure-%d", lid, i), false)
+			for {
+				select {
+				case <-run.stop:
+					return
+				default:
+				}
+				run.srv.Clients.Add(d)
+				run.srv.Clients.Delete(d.ID)
+			}
+		}(i)
+	}
+	if c.Pressure > 0 {
+		time.Sleep(time.Millisecond)
+	}
 	closeDone := make(chan struct{})
 	tClose := time.Now()
 	run.tClose = tClose
@@ -971,7 +1035,7 @@ func c36Check(c c36Case, r *evid.Rec) (discs []evid.Disc) {
 			}
 		}
 	}
-	hung := false
+	hung, deadlocked := false, false
 	if !returned {
 		budget := time.NewTimer(c36CloseBudget)
 		tick := time.NewTicker(350 * time.Millisecond)
@@ -985,6 +1049,16 @@ func c36Check(c c36Case, r *evid.Rec) (discs []evid.Disc) {
 			case <-budget.C:
 				break wait
 			case <-tick.C:
+				if dk, dd, ok := deadlockProof(); ok {
+					if dk != lastKey {
+						lastKey = dk
+						continue
+					}
+					deadlocked, hung = true, true
+					discs = append(discs, evid.D(sigDeadlock, "Close() is deadlocked %v after the call: it holds the Clients read lock in GetByListener and waits in Clients.Len for a second read lock behind %s, which waits for the write lock (goroutines %s, unchanged in two dumps 350 ms apart)",
+						time.Since(tClose).Round(time.Millisecond), dd, dk))
+					break wait
+				}
 				key, pre, during, settledStuck, ok := run.stuckProof()
 				if !ok {
 					lastKey = ""
@@ -1014,6 +1088,14 @@ func c36Check(c c36Case, r *evid.Rec) (discs []evid.Disc) {
 		}
 		budget.Stop()
 		tick.Stop()
+	}
+	if deadlocked {
+		// nothing can end this; the broker's goroutines of this case are left behind (blocked for ever) and ignored from now on
+		r.Label("class:" + c.Class)
+		r.Label("close-deadlocked")
+		r.NonTrivial(fmt.Sprintf("%s|deadlock|n=%d|ca=%d", c.Class, len(c.Clients), c.CloseAfter))
+		run.abandon()
+		return discs
 	}
 	if hung {
 		// abandon safely: only the harness can end this; close the connections of the stuck handlers
@@ -1286,6 +1368,43 @@ func c36Check(c c36Case, r *evid.Rec) (discs []evid.Disc) {
 	return discs
 }
 
+// abandon ends the harness side of a case whose broker is deadlocked and marks the broker's goroutines as leaked.
+func (run *c36Run) abandon() {
+	close(run.stop)
+	run.tr.abortParks()
+	run.cmu.Lock()
+	all := append([]*cli(nil), run.clis...)
+	run.cmu.Unlock()
+	for _, cl := range all {
+		cl.mu.Lock()
+		conn := cl.conn
+		cl.mu.Unlock()
+		if conn != nil {
+			_ = conn.Close()
+		}
+	}
+	done := make(chan struct{})
+	go func() { run.scripts.Wait(); close(done) }()
+	select {
+	case <-done:
+	case <-time.After(10 * time.Second):
+	}
+	for _, cl := range all {
+		cl.mu.Lock()
+		conn := cl.conn
+		cl.mu.Unlock()
+		if conn != nil {
+			_ = conn.Close()
+		}
+	}
+	time.Sleep(100 * time.Millisecond) // the handlers see the end of their connections and run into the lock
+	for _, g := range dumpGoroutines() {
+		if strings.Contains(g.text, "github.com/mochi-mqtt/server/v2") && !strings.Contains(g.text, "pc36.TestC36(") {
+			c36Leaked[g.id] = true
+		}
+	}
+}
+
 // cleanup ends everything the case started; a leak would make later cases meaningless, so it is reported as inconclusive.
 func (run *c36Run) cleanup(closeDone chan struct{}, releaseParked func(), r *evid.Rec) {
 	close(run.stop)
@@ -1352,6 +1471,9 @@ func c36Gen(r *evid.Rec) func(t *rapid.T) c36Case {
 	if !r.IsKnown(sigOpenUnserved) {
 		classes = append(classes, "dial-in-close", "dial-in-close")
 	}
+	if !r.IsKnown(sigDeadlock) {
+		classes = append(classes, "lock-pressure")
+	}
 	settledStages := []string{"est", "est", "sub", "sub", "midpub", "pump", "gone-dial", "gone-est"}
 	allStages := append([]string{"dial", "half", "half"}, settledStages...)
 	genClient := func(t *rapid.T, stages []string, maxStart int) c36Client {
@@ -1413,6 +1535,13 @@ func c36Gen(r *evid.Rec) func(t *rapid.T) c36Case {
 			c.Clients[i].Stage, c.Clients[i].Park = "est", "attach.afterLimitCheck"
 			c.CloseAfter = n
 			c.Release = "closing"
+		case "lock-pressure":
+			// the client registry is written at a high rate (as by connecting and disconnecting clients) while Close() reads it
+			for i := 0; i < n; i++ {
+				c.Clients = append(c.Clients, genClient(t, []string{"est", "sub", "gone-est"}, 3000))
+			}
+			c.CloseAfter = n
+			c.Pressure = rapid.IntRange(2, 8).Draw(t, "pressure")
 		case "dial-in-close":
 			// new connections arrive while closeListenerClients runs (end flag set, socket still listening)
 			for i := 0; i < n; i++ {
@@ -1465,19 +1594,26 @@ func TestC36(t *testing.T) {
 			evid.Witness(t, r, ws[sig], c36Check)
 		}
 	}
-	if r.IsKnown(sigNoDisconnectBusy) {
-		// depends on the subscriber's write queue being non-empty at the moment of Close(): most runs, not all
+	// these two depend on an interleaving inside the broker (the subscriber's write queue non-empty at the moment of
+	// Close(); a registry writer arriving between two read locks): most runs of the witness show them, not all
+	for _, sig := range []string{sigNoDisconnectBusy, sigDeadlock} {
+		if !r.IsKnown(sig) {
+			continue
+		}
 		for i := 0; i < 8; i++ {
 			r.Eval()
-			ds := c36Check(ws[sigNoDisconnectBusy], r)
+			ds := c36Check(ws[sig], r)
 			if un := r.Explain(ds); len(un) > 0 {
-				r.Fail(ws[sigNoDisconnectBusy], un)
+				r.Fail(ws[sig], un)
 				t.Errorf("C36 witness: [%s] %s", un[0].Sig, un[0].Msg)
 			}
 			if len(ds) > 0 {
 				break
 			}
 		}
+	}
+	if t.Failed() { // a witness produced something that is not listed: that is the result of this run
+		return
 	}
 	evid.Run(t, r, c36Gen(r), c36Check)
 }
